@@ -106,6 +106,7 @@ type Member struct {
 	Arity  int    // number of position-distinguishable values the driver uses
 	D      func(t *T)
 	I      func(t *T)
+	Nil    func(t *T) // nilable argument/result types, one-hot nil walk (effectful families)
 }
 
 // T is the per-execution context handed to a generated driver.
@@ -115,6 +116,7 @@ type T struct {
 	Mode   string
 	Log    []string
 	misuse []string
+	hot    string
 	Checks int
 	Obs    []string
 }
@@ -125,7 +127,11 @@ type SyncExec struct{}
 func (SyncExec) ExecuteUnsafe(r fp.Runnable) { r.Run() }
 
 func (t *T) Fail(format string, args ...any) {
-	t.X.Fail(t.Member, "%s [%s instantiation]: %s", t.Member, t.Mode, fmt.Sprintf(format, args...))
+	where := t.Mode + " instantiation"
+	if t.hot != "" {
+		where += ", " + t.hot
+	}
+	t.X.Fail(t.Member, "%s [%s]: %s", t.Member, where, fmt.Sprintf(format, args...))
 }
 
 // Ent formats one log entry / expected result: name(arg,arg,...).
@@ -137,10 +143,87 @@ func Ent(name string, args ...any) string {
 		if i > 0 {
 			sb.WriteByte(',')
 		}
-		fmt.Fprintf(&sb, "%v", a)
+		sb.WriteString(Desc(a))
 	}
 	sb.WriteByte(')')
 	return sb.String()
+}
+
+// PtrI and Fn build the tagged values of the nilable instantiation.
+func PtrI(v int) *int { return &v }
+
+func Fn(v int) func() int { return func() int { return v } }
+
+// Desc prints a value so that its position tag stays visible whatever its type: pointers
+// are followed, a func() int is called, nil pointers/slices/maps/funcs/interfaces print as
+// "nil"; everything else prints with %v (position tags of the int instantiations unchanged).
+func Desc(a any) string {
+	if a == nil {
+		return "nil"
+	}
+	v := reflect.ValueOf(a)
+	switch v.Kind() {
+	case reflect.Pointer:
+		if v.IsNil() {
+			return "nil"
+		}
+		return "&" + Desc(v.Elem().Interface())
+	case reflect.Func:
+		if v.IsNil() {
+			return "nil"
+		}
+		if f, ok := a.(func() int); ok {
+			return fmt.Sprintf("fn%d", f())
+		}
+		return "func"
+	case reflect.Slice, reflect.Map:
+		if v.IsNil() {
+			return "nil"
+		}
+	case reflect.Struct:
+		// exported-field products (fp.TupleN): describe component-wise
+		t := v.Type()
+		if t.NumField() > 0 && t.Field(0).IsExported() && strings.HasPrefix(t.Name(), "Tuple") {
+			var ps []string
+			for i := 0; i < v.NumField(); i++ {
+				ps = append(ps, Desc(v.Field(i).Interface()))
+			}
+			return "(" + strings.Join(ps, ",") + ")"
+		}
+	}
+	return fmt.Sprintf("%v", a)
+}
+
+// CallP / ResP: the callback result of the nilable instantiation is *PR; with nilRes the
+// callback returns nil (a legal value of the result type that must not be dropped).
+func (t *T) CallP(name string, nilRes bool, args ...any) *PR {
+	s := Ent(name, args...)
+	t.Log = append(t.Log, s)
+	if nilRes {
+		return nil
+	}
+	r := PR(s)
+	return &r
+}
+
+func ResP(name string, nilRes bool, args ...any) *PR {
+	if nilRes {
+		return nil
+	}
+	r := PR(Ent(name, args...))
+	return &r
+}
+
+// Hot records which position of the one-hot nil walk is running (0: none, N+1: nil result).
+func (t *T) Hot(hot, n int) {
+	switch {
+	case hot == 0:
+		t.hot = "all arguments non-nil"
+	case hot <= n:
+		t.hot = fmt.Sprintf("argument %d is nil", hot)
+	default:
+		t.hot = "the callback returns nil"
+	}
 }
 
 // rec logs one invocation of a tagged callback. It never fails (callbacks may run inside
@@ -170,12 +253,16 @@ func (t *T) Eq(what string, got, want any) {
 	t.FlushMisuse()
 	t.Checks++
 	if !reflect.DeepEqual(got, want) {
-		t.Fail("%s = %v (%T), the defining equation gives %v (%T)", what, got, got, want, want)
+		// values containing funcs are never DeepEqual: compare their descriptions (nilable instantiation)
+		same := t.Mode == "nil" && reflect.TypeOf(got) == reflect.TypeOf(want) && Desc(got) == Desc(want)
+		if !same {
+			t.Fail("%s = %s (%T), the defining equation gives %s (%T)", what, Desc(got), got, Desc(want), want)
+		}
 	}
 	if t.X.Recording() {
-		t.X.Logf("%s = %v", what, got)
+		t.X.Logf("%s = %s", what, Desc(got))
 	}
-	t.Obs = append(t.Obs, fmt.Sprint(got))
+	t.Obs = append(t.Obs, Desc(got))
 }
 
 func (t *T) Eqs(what string, got, want []any) {
